@@ -1356,6 +1356,40 @@ _PLE_FAMILY = ('_mzd_ple', '_mzd_ple_russian', '_mzd_ple_naive', '_mzd_pluq_naiv
                'mzp_init_window', 'mzp_free_window')
 
 
+def _fill_reaches(fs, store, vid, want):
+    for loop in fs.enclosing_all(store, ('ForStmt', 'WhileStmt', 'DoStmt')):
+        cond = loop.kids[2] if loop.kind == 'ForStmt' else (loop.kids[0] if loop.kind == 'WhileStmt' else loop.kids[-1])
+        c = strip(cond, casts=True) if cond is not None else None
+        if c is None or c.kind != 'BinaryOperator' or c.op not in ('<', '>', '!=', '<=', '>='):
+            continue
+        a, b = strip(c.kids[0], casts=True), strip(c.kids[1], casts=True)
+        down = any(((x.kind == 'UnaryOperator' and x.op == '--') or (x.kind == 'CompoundAssignOperator' and x.op == '-=')) and
+                   strip(x.kids[0], casts=True).kind == 'DeclRefExpr' and strip(x.kids[0], casts=True).refid == vid for x in loop.walk())
+        up = any(((x.kind == 'UnaryOperator' and x.op == '++') or (x.kind == 'CompoundAssignOperator' and x.op == '+=')) and
+                 strip(x.kids[0], casts=True).kind == 'DeclRefExpr' and strip(x.kids[0], casts=True).refid == vid for x in loop.walk())
+        if up and not down:
+            if a.kind == 'DeclRefExpr' and a.refid == vid and c.op in ('<', '!=') and fs.sym(b) == want:
+                return 'counting up to %r' % want
+            if b.kind == 'DeclRefExpr' and b.refid == vid and c.op in ('>', '!=') and fs.sym(a) == want:
+                return 'counting up to %r' % want
+        if down and not up:
+            # index starts at the dimension and is decremented before the store
+            inside = set(x.uid for x in loop.walk())
+            starts = [d for d in fs.defs.get(vid, []) if d.uid not in inside]
+            dec_first = False
+            for x in loop.walk():
+                if x is store:
+                    break
+                if ((x.kind == 'UnaryOperator' and x.op == '--') or (x.kind == 'CompoundAssignOperator' and x.op == '-=' and int_value(x.kids[1]) == 1)) and \
+                        strip(x.kids[0], casts=True).kind == 'DeclRefExpr' and strip(x.kids[0], casts=True).refid == vid:
+                    dec_first = True
+            if len(starts) == 1 and dec_first and fs.sym(starts[0]) == want:
+                return 'counting down from %r' % want
+            if len(starts) == 1 and not dec_first and fs.sym(starts[0]) == want - Lin(1):
+                return 'counting down from %r - 1' % want
+    return None
+
+
 def _has_identity_store(h, pid):
     for n in h.body.walk():
         if n.kind == 'BinaryOperator' and n.op == '=':
@@ -1399,6 +1433,12 @@ def rule_PI1(ctx, prog, label, rule='PI1', funcs=PERM_FILLERS):
                         continue
                     lr = fs.loop_range(ix.refid, n)
                     if lr is None:
+                        # other loop shapes: the dimension is the bound the index is compared with (counting up) or the
+                        # value the index starts from (counting down)
+                        why_ = _fill_reaches(fs, n, ix.refid, want)
+                        seen_fill.append(why_ or 'a loop of unrecognised extent')
+                        if why_:
+                            ok, how = True, 'identity fill, ' + why_
                         continue
                     seen_fill.append('[%r, %r)' % (lr[0], lr[1]))
                     if lr[1] == want:
